@@ -474,6 +474,61 @@ class _TooBig(Exception):
     pass
 
 
+def clear_denominators(polys, max_terms=60000):
+    """Every division by a non-monomial symbolic quantity p introduced a symbol w with the
+    hypothesis w*p = 1 (p != 0 is the recorded assumption).  For each such w, newest first (p may
+    contain older w's), every polynomial g(w) of degree k in w is replaced by p**k * g(1/p), a
+    polynomial free of w; since p != 0, g == 0 iff the replacement == 0, and the defining hypothesis
+    itself becomes 0 == 0.  Rational-function identities thereby become polynomial ones."""
+    polys = list(polys)
+    ncl = 0
+    for w in sorted(P.DEF_INV, reverse=True):
+        p = P.DEF_INV[w]
+        pw = {0: P.ONE, 1: p}
+        touched = []
+        ok = True
+        for idx, g in enumerate(polys):
+            k = 0
+            for m in g.t:
+                for s, e in m:
+                    if s == w:
+                        if e < 0 or e != int(e):
+                            ok = False
+                        k = max(k, e)
+            if k:
+                touched.append((idx, int(k)))
+        if not ok or not touched:
+            continue
+        for idx, k in touched:
+            g = polys[idx]
+            byexp = {}
+            for m, c in g.t.items():
+                e = 0
+                rest = []
+                for s, ee in m:
+                    if s == w:
+                        e = int(ee)
+                    else:
+                        rest.append((s, ee))
+                byexp.setdefault(e, {})[tuple(rest)] = c
+            acc = P.ZERO
+            for e, terms in byexp.items():
+                n = k - e
+                if n not in pw:
+                    q = pw[max(j for j in pw if j <= n)]
+                    for j in range(max(j for j in pw if j <= n) + 1, n + 1):
+                        q = q * p
+                        pw[j] = q
+                        if len(q.t) > max_terms:
+                            raise _TooBig()
+                acc = acc + P.Poly(terms) * pw[n]
+                if len(acc.t) > max_terms:
+                    raise _TooBig()
+            polys[idx] = acc
+        ncl += 1
+    return polys, ncl
+
+
 def q_cert(goals, hyps, stats, rounds=2, timeout_ms=120000, max_rows=120000, derived=()):
     """goals: list of Poly (to be shown == 0 modulo hyps).  Returns
     ('unsat'|'sat'|'unknown'|'vacuous', info).
@@ -483,17 +538,31 @@ def q_cert(goals, hyps, stats, rounds=2, timeout_ms=120000, max_rows=120000, der
     rows => goal == 0 in QF_LRA.  Stage 2 (goals stage 1 cannot reduce to zero): blind
     term-quotient closure + QF_LRA as before."""
     goals = [g for g in goals]
+    info_cd = {}
+    if P.DEF_INV:
+        # rational identities: clear the denominators introduced by divisions (w = 1/p, p != 0 assumed)
+        try:
+            allp, ncl = clear_denominators(list(goals) + list(hyps) + list(derived))
+            ng, nh = len(goals), len(hyps)
+            goals = allp[:ng]
+            hyps = [h for h in allp[ng:ng + nh] if h.t]
+            derived = [h for h in allp[ng + nh:] if h.t]
+            info_cd = {"denominators_cleared": ncl}
+        except _TooBig:
+            info_cd = {"denominators_cleared": "aborted (too many terms)"}
+    origidx = [i for i, g in enumerate(goals) if g.t]     # positions in the caller's goal list
     nz = [g for g in goals if g.t]
     if not nz:
         s = z3.SolverFor("QF_LRA")
         s.add(z3.BoolVal(False))
-        return _check(s, stats, "Q-CERT/trivial"), {"rows": 0}
+        return _check(s, stats, "Q-CERT/trivial"), dict(info_cd, rows=0)
+    goals = list(nz)
     t0 = time.time()
     info0 = {}
     try:
         derived = [h for h in derived if len(h.t) <= 200]     # big consequences cost more than they help
         hyps, nz2, nel = eliminate(list(hyps) + list(derived), nz, nopivot=len(derived))
-        info0 = {"eliminated": nel, "hyps_left": len(hyps)}
+        info0 = dict(info_cd, eliminated=nel, hyps_left=len(hyps))
         goals = nz = [g for g in nz2]
         nz = [g for g in nz if g.t]
         if not nz:
@@ -501,7 +570,7 @@ def q_cert(goals, hyps, stats, rounds=2, timeout_ms=120000, max_rows=120000, der
             s.add(z3.BoolVal(False))
             return _check(s, stats, "Q-CERT/eliminated"), dict(info0, rows=0)
     except _TooBig:
-        info0 = {"eliminated": "aborted (too many terms)"}
+        info0 = dict(info_cd, eliminated="aborted (too many terms)")
     rules = _Rules(hyps)
     rowkeys = {}
     left = []
@@ -536,7 +605,7 @@ def q_cert(goals, hyps, stats, rounds=2, timeout_ms=120000, max_rows=120000, der
     r = _check(s, stats, "Q-CERT/LRA")
     if r == "sat":
         m = s.model()
-        info["uncertified"] = [i for i, g in enumerate(goals)
+        info["uncertified"] = [origidx[i] for i, g in enumerate(goals)
                                if g.t and z3.is_true(m.eval(atoms.lin(g) != 0, model_completion=True))]
     return r, info
 
